@@ -105,6 +105,8 @@ type FS struct {
 	FaultDen    int
 	// FaultOps restricts faults to these op kinds (nil = all).
 	FaultOps map[string]bool
+	// FaultSuffix restricts faults to files whose name ends like this ("" = all).
+	FaultSuffix string
 
 	// OnWrite observes every byte range written (credential scan).
 	OnWrite func(path string, data []byte)
@@ -164,6 +166,9 @@ func (fs *FS) fault(op, path string) error {
 	if fs.FaultOps != nil && !fs.FaultOps[op] {
 		return nil
 	}
+	if fs.FaultSuffix != "" && !strings.HasSuffix(path, fs.FaultSuffix) {
+		return nil
+	}
 	if !s.T.Bool("fsfault", fs.FaultNum, fs.FaultDen) {
 		return nil
 	}
@@ -173,6 +178,11 @@ func (fs *FS) fault(op, path string) error {
 		if s.T.Choose("fsfaultkind", 2) == 1 {
 			e = syscall.ENOSPC
 		}
+	}
+	if op == "read" && s.T.Choose("fsfaultkind", 2) == 1 {
+		// not an errno (which happens to satisfy net.Error): what a layered
+		// or damaged store reports
+		e = io.ErrUnexpectedEOF
 	}
 	s.Stat("fault_fs_" + op)
 	s.Logf("fs FAULT %s %s: %v", op, canonBase(path), e)
